@@ -51,6 +51,15 @@ def run(ctx, rep):
         need = max(need, cm.get('size', 0))
         ok = all(cm.get(k, 0) >= need for k in CORE)
         rep.check(ok, 'R-C11-1', '%s compares size, mtime_sec and mtime_nsec' % fn, f.file, 'comparisons per member: %s (needed %d each)' % (cm, need), function=fn, construct='attribute set')
+    # links: the "unchanged" decision compares the target text and the link kind
+    sl = P.fn('scan_link')
+    rep.analysed(sl)
+    rep.rule('R-C11-1l', 'scan_link: a recorded link is unchanged only if target and kind (hard/symbolic) are equal', 1)
+    conds = [sl.expr(sl.term(b).ops[0]).replace(' ', '') for b in range(len(sl.blocks)) if sl.term(b).op == 'br' and len(sl.term(b).ops) == 3]
+    tgt = any(c.startswith('(strcmp(') and 'linkto' in c for c in conds)
+    kind = any('link_flag' in c and 'link_flag_get(' in c for c in conds)
+    # both belong to the same decision: the kind test dominates or is dominated by the target test
+    rep.check(tgt and kind, 'R-C11-1l', 'scan_link compares linkto and link kind', sl.file, 'target compared: %s; kind compared: %s' % (tgt, kind), function='scan_link', construct='link attribute set')
     # NSEC_INVALID acceptance
     inv_sites = []
     for f in P.defined():
